@@ -106,7 +106,11 @@ class Ctx:
         if key not in self._progs:
             sys.path.insert(0, os.path.dirname(os.path.abspath(__file__)))
             from facts import Program
-            self._progs[key] = Program(self.facts_path(key))
+            pr = Program(self.facts_path(key))
+            if os.environ.get("VERIF_NOINLINE") != "1":
+                import inline
+                inline.apply(pr)
+            self._progs[key] = pr
         return self._progs[key]
 
 
